@@ -98,6 +98,13 @@ def decode_schedule(hexs):
     return seed, steps
 
 
+# failure messages that a *program* can cause (its own panic, a deadlock, a diagnosed re-entrant acquisition, an unwrap of
+# a poisoned / closed primitive, a bound) — anything else in an `E fail` line is the runtime tripping over itself
+EXPECTED_FAILURES = ("vp-panic", "deadlock!", "PoisonError", "AcquireError", "exceeded max_steps bound", "E stepbound", "E deadlock",
+                     "test closure did not exercise", "resumed a waiting thread while the lock was in an incompatible state",
+                     "num_permits > 0", "schedpanic", "SendError", "RecvError", "TryRecvError", "TrySendError", "Elapsed", "JoinError")
+
+
 def report(c, results, oracle_bad, ok_build, ok_audit, proof_name, audit_name):
     """oracle_bad: list of (what, replay_obj, signature). Verdict per DESIGN §4.3."""
     seen = set()
@@ -114,6 +121,18 @@ def report(c, results, oracle_bad, ok_build, ok_audit, proof_name, audit_name):
         for prog, rc, err in r["st"]["crashed"]:
             c.violation(f"the implementation (or driver) crashed on program {prog}: rc={rc} {err[-200:]}",
                         {"kind": "program", "program": r["progs"].get(prog, []), "stream": name}, f"{c.pid}:crash")
+    # search the differing programs for a concrete failing input: an execution that fails *inside the runtime*
+    # (a message that is neither the program's own panic nor one of the runtime's documented diagnoses) where the
+    # model, which the theorems are about, goes on differently
+    if not oracle_bad:
+        for name, r in results.items():
+            for n, i, a, b in r["diffs"]:
+                if a.startswith("E panic ") and not any(k in a for k in EXPECTED_FAILURES) and f"{c.pid}:runtime-panic" not in seen:
+                    seen.add(f"{c.pid}:runtime-panic")
+                    if c.violation(f"the runtime itself fails on this program: `{a[8:200]}` (the model continues with `{b[:80]}`)",
+                                   {"kind": "program", "program": r["progs"].get(n, []), "stream": name}, f"{c.pid}:runtime-panic"):
+                        reported += 1
+                    oracle_bad = oracle_bad + [("runtime-panic", None, f"{c.pid}:runtime-panic")]
     if not oracle_bad:
         for name, r in results.items():
             if r["diffs"]:
